@@ -56,6 +56,10 @@ def generate(ctx):
             ops.append({"dim": dim, "size": rng.choice([None, 1, 2, 3, 4, 5])})
         yield {"part": "recshape", "N": rng.choice([1, 2, 3, 5]), "shape": list(shape),
                "storage": rng.choice(["buffer", "param"]), "pushes": rng.randint(0, 9), "ops": ops}
+        if rng.random() < 0.3:
+            ops2 = [{"dim": rng.randint(-3, 2), "size": rng.choice([None, 1, 2, 3, 4])} for _ in range(rng.randint(2, 7))]
+            yield {"part": "recshape", "lazy": True, "N": rng.choice([1, 2, 3, 5]), "shape": [],
+                   "storage": rng.choice(["none", "empty", "ubuf", "uparam", "emptyparam"]), "pushes": 0, "ops": ops2}
     for _ in range(9000 if thorough else 700):
         nd = rng.randint(1, 4)
         shape = [rng.randint(1, 4) for _ in range(nd)]
@@ -211,7 +215,45 @@ def _resize_ref(arr, axis, size):
     return arr
 
 
+def _run_recshape_lazy(ctx, desc):
+    """shape constraints on a record whose storage does not exist yet: pure bookkeeping, never a failure"""
+    owner = inferno.Module()
+    RecordTensor.create(owner, "rec", 1.0, float(desc["N"]), _mk_value(desc["storage"], ()))
+    rt = owner.rec
+    model = {}
+    for oi, op in enumerate(desc["ops"]):
+        rdesc = {**desc, "ops": desc["ops"][: oi + 1]}
+        dim, size = op["dim"], op["size"]
+        kindop = "remove" if size is None else ("edit" if dim in model else "add")
+        ctx.case(f"recshape_lazy/{kindop}/dim{'+' if dim >= 0 else '-'}/{desc['storage']}")
+        ctx.count("lazy_recshape_ops")
+        try:
+            rt.reconstrain(dim, size)
+            refused = None
+        except (ValueError, RuntimeError) as e:
+            refused = e
+        except Exception as e:  # noqa: BLE001
+            return ctx.violation(ctx.exc_signature(e, f"record.reconstrain_lazy.{kindop}"),
+                                 f"reconstrain({dim},{size}) raised {type(e).__name__}: {str(e)[:120]}", rdesc)
+        if kindop == "remove" and dim not in model:
+            if refused is None:
+                return ctx.violation("recshape_lazy.remove.missing_constraint_accepted", "removing a constraint that does not exist succeeded", rdesc)
+        elif refused is not None:
+            return ctx.violation(f"recshape_lazy.{kindop}.refused_on_uninitialised_storage",
+                                 f"reconstrain({dim},{size}) refused although there is no storage to disagree with: {str(refused)[:120]}", rdesc)
+        elif kindop == "remove":
+            model.pop(dim)
+        else:
+            model[dim] = size
+        if dict(rt.constraints) != model:
+            return ctx.violation(f"recshape_lazy.{kindop}.constraints_getter", f"constraints {dict(rt.constraints)} != {model}", rdesc)
+        if rt.recordsz != desc["N"]:
+            return ctx.violation(f"recshape_lazy.{kindop}.record_dim_changed", "record size changed", rdesc)
+
+
 def _run_recshape(ctx, desc):
+    if desc.get("lazy"):
+        return _run_recshape_lazy(ctx, desc)
     shape = tuple(desc["shape"])
     n = desc["N"]
     numel = int(np.prod(shape))
